@@ -302,6 +302,22 @@ func sortedAt(v ssa.Value, at ssa.Instruction, depth int) (bool, string) {
 		if name == "slices.CompactFunc" || name == "slices.Compact" {
 			return sortedAt(x.Call.Args[0], x, depth+1)
 		}
+		// the slice is handed back by a function of the module: sorted if every
+		// slice that function returns is
+		if h := x.Call.StaticCallee(); h != nil && load.InModule(h) && x.Call.Signature().Results().Len() == 1 {
+			if h.Blocks == nil && h.Origin() != nil {
+				h = h.Origin()
+			}
+			rets := returnsOf(h)
+			if h.Blocks != nil && len(rets) > 0 {
+				for _, r := range rets {
+					if ok, why := sortedAt(facts.RetVal(r, 0), r, depth+1); !ok {
+						return false, why
+					}
+				}
+				return true, ""
+			}
+		}
 	}
 	return false, "no slices.SortFunc/Sort call on the listed slice dominates its use"
 }
@@ -761,11 +777,21 @@ func c05Continuation(c *core.Ctx) {
 				xs, ok := lastElemOf(args[len(args)-1])
 				fromPage := false
 				if ok {
-					if ex, isEx := xs.(*ssa.Extract); isEx && ex.Index == 0 {
-						if call, isCall := ex.Tuple.(*ssa.Call); isCall {
-							if idx, root, isP := rootParam(call.Call.Value); isP && root == pager && idx == 3 {
-								fromPage = true
+					// the page: result 0 of the parse callback (pager's parameter 3), possibly
+					// handed back by a private helper that made the call
+					origins := helperResultOrigins(xs, 2)
+					fromPage = len(origins) > 0
+					for _, o := range origins {
+						good := false
+						if ex, isEx := o.V.(*ssa.Extract); isEx && ex.Index == 0 {
+							if call, isCall := ex.Tuple.(*ssa.Call); isCall {
+								if idx, root, isP := rootParam(o.up(call.Call.Value)); isP && root == pager && idx == 3 {
+									good = true
+								}
 							}
+						}
+						if !good {
+							fromPage = false
 						}
 					}
 				}
@@ -791,11 +817,13 @@ func c05Continuation(c *core.Ctx) {
 		}
 		// nextLink: fallback request carries ListLast = last
 		okStore := false
-		for _, b := range nextLink.Blocks {
-			for _, in := range b.Instrs {
-				if st, ok := in.(*ssa.Store); ok {
-					if _, fld, isF := facts.FieldOf(st.Addr); isF && fld == "ListLast" && argIsParam(st.Val, nextLink, 3) {
-						okStore = true
+		for _, f := range withHelpers(nextLink) {
+			for _, b := range f.Blocks {
+				for _, in := range b.Instrs {
+					if st, ok := in.(*ssa.Store); ok {
+						if _, fld, isF := facts.FieldOf(st.Addr); isF && fld == "ListLast" && argIsParam(resolveUp(st.Val, nextLink, 3), nextLink, 3) {
+							okStore = true
+						}
 					}
 				}
 			}
